@@ -1,4 +1,5 @@
 import NA.Proofs.F2Names
+import NA.Proofs.F2Plan
 /-!
 # F2: the second compare — after a run of the class `wfB` the device is statically settled
 
@@ -965,5 +966,109 @@ theorem F2_settled_after (a0 b : Config) (sc : Scripts) (hw : WF a0 b sc) (hok :
   obtain ⟨d1, σ1, π1, d3, p, hc⟩ := F2_core a0 b sc hw hok (ofConfig a0) (reads_ofConfig a0)
   have hA := after_of_core hw hc
   exact ⟨strip d3, _, _, hc.exec, hA, fun sc2 hq => settled_of_after hw hok hA sc2 hq⟩
+
+/-! ## Exact convergence without suppressed moves; idempotence without a hypothesis on the planner -/
+
+theorem act_of_flags (a a' : NA.Acl.Act) (h1 : (a == .permit) = (a' == .permit)) (h2 : (a == .remark) = (a' == .remark)) :
+    a = a' := by
+  cases a <;> cases a' <;> first | rfl | (exfalso; revert h1 h2; decide)
+
+theorem idx_eq_of_mem {l : List String} {x y : String} (hy : y ∈ l) (h : l.idxOf x = l.idxOf y) : x = y := by
+  have hx : x ∈ l := by
+    rw [← List.idxOf_lt_length_iff, h, List.idxOf_lt_length_iff]; exact hy
+  exact idxOf_inj hx hy h
+
+/-- Equal under the numeric encoding ⇒ equal line by line (text, text without `log`, action). -/
+theorem linesEq_of_exact {x y : List ALine} (h : ExactEq x y) : linesEqB x y = true := by
+  obtain ⟨al, h⟩ := h
+  unfold linesEqB
+  rw [beq_iff_eq]
+  have hgen : ∀ (x' y' : List ALine), (∀ l ∈ y', l ∈ y) → x'.map (encP al y) = y'.map (encP al y) →
+      (x'.map fun l => (l.text, l.nolog, l.act)) = (y'.map fun l => (l.text, l.nolog, l.act)) := by
+    intro x'
+    induction x' with
+    | nil =>
+      intro y' _ he
+      cases y' with
+      | nil => rfl
+      | cons _ _ => cases he
+    | cons lx xs ih =>
+      intro y' hsub he
+      cases y' with
+      | nil => cases he
+      | cons ly ys =>
+        simp only [List.map_cons, List.cons.injEq] at he ⊢
+        obtain ⟨he1, he2⟩ := he
+        have hly : ly ∈ y := hsub ly (List.mem_cons_self ..)
+        have ht : lx.text = ly.text := by
+          apply idx_eq_of_mem (l := tkOf al y)
+          · exact List.mem_map.mpr ⟨ly, List.mem_append_right _ hly, rfl⟩
+          · exact congrArg NA.Acl.Line.key he1
+        have hn : lx.nolog = ly.nolog := by
+          apply idx_eq_of_mem (l := mkOf al y)
+          · exact List.mem_map.mpr ⟨ly, List.mem_append_right _ hly, rfl⟩
+          · exact congrArg NA.Acl.Line.mkey he1
+        have ha : lx.act = ly.act :=
+          act_of_flags _ _ (congrArg NA.Acl.Line.permit he1) (congrArg NA.Acl.Line.remark he1)
+        refine ⟨by rw [ht, hn, ha], ih ys (fun l hl => hsub l (List.mem_cons_of_mem _ hl)) he2⟩
+  exact hgen x y (fun _ hl => hl) h
+
+/-- After the run every ACL bound for the target is exactly the target's, unless a move was suppressed. -/
+theorem exact_of_core {a0 b : Config} {sc : Scripts} (hw : WF a0 b sc) {d1 : Dev} {σ1 : String → String → Status}
+    {π1 : List (Nat × Nat)} {d3 : Dev} {p : List Name} (hc : Core a0 b sc (ofConfig a0) d1 σ1 π1 d3 p) :
+    ∀ bi ∈ b.intfs, ∀ bd ∈ bi.binds,
+      ExactEq (linesOf (strip d3) ((st3Of a0 b sc).nameOf bd.acl)) (b.lines bd.acl) ∨ SupprT (envOf a0 b sc) bd.acl := by
+  intro bi hbi bd hbd
+  have hsem1 := hc.sem
+  have hhas : ∀ n, (aOf a0 b).hasAcl n = a0.hasAcl n := fun n => by simp [Config.hasAcl, hc.aclsEq]
+  obtain ⟨ai, _, _, hdn⟩ := hc.done bi hbi
+  have hσ := hdn.settled bd hbd
+  have hdir := (hw.bBinds bi hbi).2 bd hbd
+  have hs := hsem1.slots bi.name bd.dir hdir.1
+  rw [hσ] at hs
+  obtain ⟨hr, _⟩ := hs
+  obtain ⟨_, _, h3, h4⟩ := hsem1.ready bd.acl hr
+  have hnp : (st3Of a0 b sc).nameOf bd.acl ∉ p := by
+    intro hcc
+    obtain ⟨hna, hnn⟩ := hc.pmem _ hcc
+    rcases h4 with h4 | h4
+    · exact hnn h4
+    · have h4' : a0.hasAcl ((st3Of a0 b sc).nameOf bd.acl) = false := by rw [← hhas]; exact h4
+      rw [hna] at h4'; cases h4'
+  obtain ⟨k1, _⟩ := hc.keep3 _ hnp
+  have : linesOf (strip d3) ((st3Of a0 b sc).nameOf bd.acl) = linesOf d1 ((st3Of a0 b sc).nameOf bd.acl) := by
+    simp only [linesOf, entriesOf_strip, k1]
+  rw [this]
+  exact h3.2
+
+/-- **Idempotence in the class of exact convergence.**  `WF` run in which no compared pair has a
+suppressed move; a differ that answers the identity script on lists that are equal line by line
+(`IdentityDiffer`): the second compare prints nothing — no hypothesis on the planner's answer. -/
+theorem F2_idempotent_exact (a0 b : Config) (sc : Scripts) (hw : WF a0 b sc) (hok : (engine a0 b sc).ok = true)
+    (hns : ∀ aN bN, Cmp (envOf a0 b sc) aN bN →
+      noSupprPair ((aOf a0 b).lines aN) (b.lines bN) (lookupD sc.acl (aN, bN)) = true) :
+    ∃ d', (exec (ofConfig a0) (engine a0 b sc).script).map strip = some d' ∧
+      (∀ p ∈ cmpPairs (aOf (reconf a0 (a0.routes ++ b.routes) d') b) b,
+        linesEqB ((reconf a0 (a0.routes ++ b.routes) d').lines p.1) (b.lines p.2) = true) ∧
+      ∀ sc2, (∀ p ∈ cmpPairs (aOf (reconf a0 (a0.routes ++ b.routes) d') b) b,
+          linesEqB ((reconf a0 (a0.routes ++ b.routes) d').lines p.1) (b.lines p.2) = true →
+          identityOn ((reconf a0 (a0.routes ++ b.routes) d').lines p.1) (b.lines p.2) (lookupD sc2.acl p) = true) →
+        settledB (reconf a0 (a0.routes ++ b.routes) d') b sc2 = true ∧
+        (engine (reconf a0 (a0.routes ++ b.routes) d') b sc2).script = [] := by
+  obtain ⟨d1, σ1, π1, d3, p, hc⟩ := F2_core a0 b sc hw hok (ofConfig a0) (reads_ofConfig a0)
+  have hA := after_of_core hw hc
+  have hex := exact_of_core hw hc
+  have heq : ∀ p ∈ cmpPairs (aOf (reconf a0 (a0.routes ++ b.routes) (strip d3)) b) b,
+      linesEqB ((reconf a0 (a0.routes ++ b.routes) (strip d3)).lines p.1) (b.lines p.2) = true := by
+    intro q hq
+    obtain ⟨_, h2, bi, hbi, bd, hbd, h3⟩ := after_M hw hA (a0.routes ++ b.routes) q.1 q.2 hq
+    rw [lines_reconf, h2, ← h3]
+    rcases hex bi hbi bd hbd with k | ⟨aN, hcmp, hsup⟩
+    · exact linesEq_of_exact k
+    · rw [hns aN bd.acl hcmp] at hsup; cases hsup
+  refine ⟨strip d3, hc.exec, heq, ?_⟩
+  intro sc2 hid
+  have hS := settled_of_after hw hok hA sc2 (fun q hq => identityOn_quiet _ _ _ (hid q hq (heq q hq)))
+  exact ⟨hS, F2_quiet _ b sc2 hS⟩
 
 end NA.F2
